@@ -68,6 +68,37 @@ def invalid_packages():
     variant("manifest/missing-import-dir", "manifest", "manifest", lambda f: f.__setitem__("main/_package.yml", f["main/_package.yml"].replace("../imp\n", "../imp\n  - ../nowhere\n")))
     variant("manifest/missing-version-dir", "manifest", "manifest", lambda f: f.__setitem__("main/_package.yml", f["main/_package.yml"].replace("v1: ../v1", "v1: ../nowhere")))
     variant("manifest/import-yaml-syntax", "yaml-syntax", "imported-manifest", lambda f: f.__setitem__("imp/_package.yml", "namespace: [Imp\n"))
+    # the same errors in packages whose directory name starts with a dot (snapshots of released versions, vendored imports)
+    def hide(f, d):
+        for k in list(f):
+            if k.startswith(d + "/"):
+                f[".store/" + k] = f.pop(k)
+        for k in list(f):
+            if k.endswith("_package.yml"):
+                f[k] = f[k].replace("../%s\n" % d, ("../.store/%s\n" if not k.startswith(".store/") else "../%s\n") % d)
+    for d, loc in (("v0", "previous-version-in-hidden-directory"), ("imp", "imported-package-in-hidden-directory"), ("imp2", "import-of-import-in-hidden-directory")):
+        path = {"v0": ".store/v0/a.yml", "imp": ".store/imp/model.yml", "imp2": ".store/imp2/model.yml"}[d]
+        for lbl, kind, text in (("yaml-syntax", "yaml-syntax", "Broken: [unclosed\n  : :\n"), ("unknown-type", "semantic", "Bad: NoSuchType\n"),
+                                ("duplicate-field", "semantic", "Bad: !record\n  fields:\n    a: int\n    a: int\n")):
+            def ed(f, d=d, path=path, text=text):
+                if d == "imp2":
+                    hide(f, "imp")      # keep the relative import ../imp2 of imp valid: both live in the store
+                hide(f, d)
+                if d == "imp":
+                    f[".store/imp/_package.yml"] = f[".store/imp/_package.yml"].replace("../imp2", "../../imp2")
+                if d == "v0":
+                    f[".store/v0/_package.yml"] = f[".store/v0/_package.yml"].replace("../imp", "../../imp")
+                f[path] = f[path] + text
+            variant("%s/%s" % (lbl, loc), kind, loc, ed)
+    variant("evolution/incompatible-with-version-in-hidden-directory", "evolution", "evolution-hidden-version",
+            lambda f: (hide(f, "v0"), f.__setitem__(".store/v0/_package.yml", f[".store/v0/_package.yml"].replace("../imp", "../../imp")),
+                       f.__setitem__(".store/v0/a.yml", f[".store/v0/a.yml"].replace("    first: int\n", "    first: int*\n"))))
+    # so many errors that their number is a multiple of 256 (the exit status is not a counter)
+    many = lambda n: "Many: !record\n  fields:\n" + "".join("    Bad_%d: int\n" % i for i in range(n))
+    for n in (255, 256, 257, 512):
+        variant("many-errors-%d/main-package" % n, "semantic", "main-package", lambda f, n=n: f.__setitem__("main/a.yml", f["main/a.yml"] + many(n)))
+    variant("many-errors-256/imported-package", "semantic", "imported-package", lambda f: f.__setitem__("imp/model.yml", f["imp/model.yml"] + many(256)))
+    variant("many-errors-256/previous-version", "semantic", "previous-version-first", lambda f: f.__setitem__("v0/a.yml", f["v0/a.yml"] + many(256)))
     variant("manifest/import-cycle", "manifest", "imported-manifest", lambda f: f.__setitem__("imp2/_package.yml", "namespace: Imp2\nimports:\n  - ../imp\n"))
     return base, out
 
@@ -102,7 +133,7 @@ def run_case(case):
     outabs = os.path.normpath(os.path.join(wd, "main", outroot))
     if init == "populated":
         build.write_tree(wd, with_conf(base_files))
-        populate_with = [] if any("disabled" in x for x in overrides) else overrides     # the earlier successful run had its targets on
+        populate_with = [] if any("disabled" in x or x.endswith("=") for x in overrides) else overrides     # the earlier successful run had its targets on
         rc, out, err = build.yardl(["generate"] + populate_with, cwd=os.path.join(wd, "main"))
         if rc != 0:
             return case[:3], {"harness": "valid base does not generate: " + err[-400:]}
@@ -151,6 +182,36 @@ def main(tier):
                     for ov in ovs:
                         cases.append((label, kind, loc, files, base, targets, outloc, init, ov, slot))
                         slot += 1
+    # configuration errors: a target section that names no directory (in the manifest, or emptied with -c), next to valid targets that
+    # are generated before it; the models are valid, nothing may be written
+    all4 = ("cpp", "python", "json", "matlab")
+    empties = {"json": "json:\n  outputDir: \"\"\n", "cpp": "cpp:\n  generateCMakeLists: false\n", "python": "python:\n  generateNDJson: false\n", "matlab": "matlab:\n  outputDir:\n"}
+    keyname = {"json": "json.outputDir", "cpp": "cpp.sourcesOutputDir", "python": "python.outputDir", "matlab": "matlab.outputDir"}
+    for t in all4:
+        others = tuple(x for x in all4 if x != t)
+        bad = dict(base)
+        bad["main/_package.yml"] = base["main/_package.yml"] + empties[t]
+        for init in ("absent", "populated"):
+            cases.append(("config/%s-section-without-directory" % t, "manifest", "manifest", bad, base, others, "outside", init, [], slot)); slot += 1
+            cases.append(("config/%s-directory-emptied-by-override" % t, "manifest", "command-line", base, base, all4, "outside", init, ["-c", keyname[t] + "="], slot)); slot += 1
+    # valid but unusual models (names at the length limits of the targets, a union whose derived class name is very long, many fields):
+    # either everything is generated, or - if a generator gives up on one of them - nothing is
+    long64 = "L" + "o" * 62 + "g"
+    stress = {
+        "long-union-class-name": "AcquisitionHeaderRecordNumberOne: !record\n  fields:\n    a: int\nWaveformSamplesRecordNumberTwo: !record\n  fields:\n    b: int\n"
+                                 "ImageReconstructionRecordThree: !record\n  fields:\n    c: int\nNoiseMeasurementRecordNumberFour: !record\n  fields:\n    d: int\n"
+                                 "St: !protocol\n  sequence:\n    s: !stream\n      items: [AcquisitionHeaderRecordNumberOne, WaveformSamplesRecordNumberTwo, ImageReconstructionRecordThree, NoiseMeasurementRecordNumberFour]\n",
+        "type-name-64-characters": "%s: !record\n  fields:\n    a: int\nSt: !protocol\n  sequence:\n    s: %s\n" % (long64, long64),
+        "protocol-name-60-characters": "P%s: !protocol\n  sequence:\n    s: int\n" % ("r" * 59),
+        "field-and-step-names-64-characters": "Rs: !record\n  fields:\n    f%s: int\nSt: !protocol\n  sequence:\n    s%s: Rs\n" % ("x" * 63, "y" * 63),
+        "record-with-400-fields": "Wide: !record\n  fields:\n" + "".join("    f%d: int\n" % i for i in range(400)) + "St: !protocol\n  sequence:\n    s: Wide\n",
+        "enum-with-300-values": "Big: !enum\n  values: [%s]\nSt: !protocol\n  sequence:\n    s: Big\n" % ", ".join("v%d" % i for i in range(300)),
+        "nesting-depth-8": "St: !protocol\n  sequence:\n    s: %s\n" % ("int" + "*" * 8),
+    }
+    for name, model in stress.items():
+        fs = {"main/_package.yml": "namespace: Main\n", "main/m.yml": model}
+        for init in ("absent", "populated"):
+            cases.append(("valid-stress/" + name, "valid", "-", fs, {"main/_package.yml": "namespace: Main\n", "main/m.yml": "X: int\n"}, all4, "outside", init, [], slot)); slot += 1
     # guard: the valid base generates for every configuration
     for targets in subsets:
         r = run_case(("BASE", "valid", "-", base, base, targets, "outside", "absent", [], 10**6))[1]
@@ -164,6 +225,12 @@ def main(tier):
         chk.count()
         chk.nontriv((label, len(chk.nontrivial)))
         chk.outcome((kind, r["rc"]))
+        if kind == "valid":
+            # a model yardl accepts: success, or a failure that leaves no trace
+            if r["rc"] != 0 and (r["nchanged"] or r["created_root"]):
+                chk.fail("output-touched-despite-error/%s" % label, "yardl generate failed on an accepted model (%s: %s) after it had started writing: %s" % (
+                    label, r["stderr"][-200:], r["changed"][:6]), {"label": label, "result": r})
+            continue
         if r["rc"] not in (0, 1):
             chk.fail("crash/%s" % label, "yardl generate exit status %d on an invalid package (%s): %s" % (r["rc"], label, r["stderr"][-300:]), {"label": label, "result": r})
         elif r["rc"] == 0:
